@@ -44,6 +44,20 @@ _template_vocab = {}
 def template_vocab(lang):
     if lang not in _template_vocab:
         p = os.path.join(env.REPO, 'depccg', 'models', f'semantic_templates_{lang}_event.yaml')
+        try:
+            # where the library itself says its templates are
+            from depccg.instance_models import SEMANTIC_TEMPLATES
+            q = str(SEMANTIC_TEMPLATES[lang])
+            if os.path.exists(q):
+                p = q
+        except Exception:
+            pass
+        if not os.path.exists(p):
+            import glob
+            cand = sorted(glob.glob(os.path.join(env.REPO, 'depccg', 'models', f'semantic_templates_{lang}*.yaml')))
+            if not cand:
+                raise runner.HarnessError(f'semantic templates of {lang} not found')
+            p = cand[0]
         txt = open(p, encoding='utf-8').read()
         vocab = set()
         for m in re.finditer(r'rule\s*:\s*("([^"]*)"|\'([^\']*)\'|([^,}\s]+))', txt):
@@ -70,9 +84,14 @@ def audit_sentence(sent, bad, n_tokens, n_trees):
         if ccg.get('root') not in local:
             bad('jigg-audit/root-unresolved', f'root {ccg.get("root")} is not a span of its ccg')
             continue
-        roots = [sp for sp in local.values() if sp.get('root') == 'true']
-        if len(roots) != 1 or roots[0].get('id') != ccg.get('root'):
-            bad('jigg-audit/root-count', f'{len(roots)} spans marked root="true"')
+        # exactly one span is the root: the one no span names as its child, which is the one <ccg root=...> names;
+        # a root="true" marker, where present, sits on that span and on no other
+        children = {c for sp in local.values() for c in (sp.get('child') or '').split()}
+        top = [i for i in local if i not in children]
+        marked = [sp.get('id') for sp in local.values() if sp.get('root') == 'true']
+        if top != [ccg.get('root')] or any(m != ccg.get('root') for m in marked) or len(marked) > 1:
+            bad('jigg-audit/root-count', f'spans that are no span\'s child: {top[:4]}; marked root="true": {marked[:4]}; '
+                f'<ccg root={ccg.get("root")!r}>')
         leaves_pos = []
         for sp in local.values():
             b, e = int(sp.get('begin')), int(sp.get('end'))
@@ -113,8 +132,10 @@ def iso_fails(node, d, bad, rule_of):
             bad('ccg2lambda-tree/shape', 'a leaf of the derivation is not a terminal span')
         return
     want = rule_of(d)
-    if node.get('rule') != want:
-        bad('ccg2lambda-tree/rule', f'span rule {node.get("rule")!r}, derivation node is labelled {want!r}')
+    both = (d[3], d[4]) if d[0] == 'U' else (d[4], d[5])
+    if node.get('rule') not in both:
+        bad('ccg2lambda-tree/rule', f'span rule {node.get("rule")!r}, derivation node is labelled {want!r} '
+            f'(symbol {both[1]!r})')
     sub = [d[2]] if d[0] == 'U' else [d[2], d[3]]
     if len(kids) != len(sub):
         bad('ccg2lambda-tree/shape', f'{len(kids)} nested spans for a node with {len(sub)} children')
@@ -173,7 +194,8 @@ def check_case(case, info=None):
                 else:
                     keys = ('word', 'pos', 'entity', 'lemma', 'chunk')
                     for (i, j, orig), r in zip(flat, rs):
-                        if r.name != f'sentence={i}_id={j}':
+                        fields = dict(kv.split('=', 1) for kv in str(r.name).split('_') if '=' in kv)
+                        if fields.get('sentence') != str(i) or fields.get('id') != str(j):
                             bad('xml/numbering', f'tree {j} of sentence {i} read under name {r.name!r}')
                         want = mt.shape(orig, leaf=lambda t: tuple(t.token.get(k) for k in keys))
                         got = mt.shape(r.tree, leaf=lambda t: tuple(t.token.get(k) for k in keys))
@@ -231,7 +253,9 @@ def check_case(case, info=None):
             toks = sent_el.xpath('./tokens/token')
             before = [(tk.get('surf'), tk.get('base')) for tk in toks]
             try:
-                normalize_tokens(toks)
+                ret = normalize_tokens(toks)
+                if ret is not None and len(ret) == len(toks):
+                    toks = list(ret)        # (normalised in place or handed back: either way these are the results)
             except Exception as ex:
                 bad(f'normalize/raises/{type(ex).__name__}', f'{type(ex).__name__}: {ex}')
                 continue
@@ -247,7 +271,9 @@ def check_case(case, info=None):
                     # pure function of the token: the same text normalises the same way on its own
                     el = etree.Element('token')
                     el.set(attr, orig_v)
-                    normalize_tokens([el])
+                    ret1 = normalize_tokens([el])
+                    if ret1 is not None and len(ret1) == 1:
+                        el = ret1[0]
                     if el.get(attr) != v:
                         bad('normalize/not-pure', f'{attr} {orig_v!r} gives {v!r} in the sentence and {el.get(attr)!r} alone')
         # ---- what the printer hands to ccg2lambda
@@ -259,8 +285,17 @@ def check_case(case, info=None):
                 captured.append(jigg_xml)
                 n = [len(s.xpath('./ccg')) for s in jigg_xml.xpath('//sentence')]
                 return b'<root/>', [['formula'] * k for k in n]
-        real = printer_mod.ccg2lambda
-        printer_mod.ccg2lambda = _Fake
+        import importlib
+        saved = []
+        if hasattr(printer_mod, 'ccg2lambda'):
+            saved.append((printer_mod, 'ccg2lambda', printer_mod.ccg2lambda))
+            printer_mod.ccg2lambda = _Fake
+        try:
+            home = importlib.import_module('depccg.semantics.ccg2lambda.parse')
+            saved.append((home, 'parse', home.parse))
+            home.parse = _Fake.parse          # (a printer that imports the function lazily finds it here)
+        except Exception:
+            pass
         try:
             for fmt in ('jigg_xml_ccg2lambda', 'ccg2lambda'):
                 try:
@@ -268,24 +303,26 @@ def check_case(case, info=None):
                 except Exception as ex:
                     bad(f'bridge/{fmt}/raises/{type(ex).__name__}', f'{type(ex).__name__}: {ex}')
         finally:
-            printer_mod.ccg2lambda = real
+            for mod_, name_, old_ in saved:
+                setattr(mod_, name_, old_)
         vocab = template_vocab(system)
         for xml in captured:
-            spans = xml.xpath('//span[@rule]')
-            rules = [sp.get('rule') for sp in spans]
-            k = 0
+            import collections
+            rules = collections.Counter(sp.get('rule') for sp in xml.xpath('//span[@rule]'))
+            want_rules = collections.Counter()
             for d in derivs:
                 for lab, sym in gen_tree.labels_of(d):
-                    if k >= len(rules):
-                        break
-                    got = rules[k]
-                    k += 1
-                    if sym in vocab and lab not in vocab and got != sym:
-                        bad('bridge/rule-vocabulary', f'the semantic templates of {system} key on {sym!r}; the XML handed to '
-                            f'ccg2lambda carries rule={got!r}')
-                    elif lab in vocab and sym not in vocab and got != lab:
-                        bad('bridge/rule-vocabulary', f'the semantic templates of {system} key on {lab!r}; the XML handed to '
-                            f'ccg2lambda carries rule={got!r}')
+                    if sym in vocab and lab not in vocab:
+                        want_rules[sym] += 1
+                    elif lab in vocab and sym not in vocab:
+                        want_rules[lab] += 1
+            # (in whatever order the spans are written: every node whose template key is decided by the vocabulary
+            # must appear under that key)
+            for key_, n_ in want_rules.items():
+                if rules.get(key_, 0) < n_:
+                    bad('bridge/rule-vocabulary', f'the semantic templates of {system} key on {key_!r} ({n_} node(s) of the '
+                        f'batch); the XML handed to ccg2lambda carries rule attributes {dict(rules)}')
+                    break
     finally:
         set_global_language_to('en')
     return fails
